@@ -55,6 +55,7 @@ type LogRow struct {
 	IKHash        string
 	Hash          []byte
 	SchemaVersion string
+	Memento       []byte // only kept when the row was written through the SQL interpreter
 }
 
 type AcctRow struct {
@@ -270,6 +271,9 @@ func (s *SimStore) GetMigrationsInfo(ctx context.Context) ([]migrations.Info, er
 // ---- S3 GetBalances ----
 
 func (s *SimStore) GetBalances(ctx context.Context, q ledgerstore.BalanceQuery) (ledger.Balances, error) {
+	if s.w.realSQL {
+		return s.DefaultStoreAdapter.GetBalances(ctx, q)
+	}
 	type pair struct{ account, asset string }
 	var pairs []pair
 	for account, assets := range q {
@@ -317,6 +321,9 @@ func (s *SimStore) GetBalances(ctx context.Context, q ledgerstore.BalanceQuery) 
 // ---- S4 CommitTransaction = UpdateVolumes ; InsertTransaction ; (InsertMoves) ----
 
 func (s *SimStore) CommitTransaction(ctx context.Context, tx *ledger.Transaction) error {
+	if s.w.realSQL {
+		return s.DefaultStoreAdapter.CommitTransaction(ctx, tx)
+	}
 	updates := tx.VolumeUpdates() // the real Go function feeding the upsert
 	pcv := ledger.PostCommitVolumes{}
 	err := s.call(ctx, "UpdateVolumes", fmt.Sprintf("%d rows", len(updates)), lockStmtKinds, func(sess *Session) error {
@@ -478,6 +485,9 @@ func (s *SimStore) updateTx(ctx context.Context, op string, id uint64, mutate fu
 }
 
 func (s *SimStore) RevertTransaction(ctx context.Context, id uint64, at time.Time) (*ledger.Transaction, bool, error) {
+	if s.w.realSQL {
+		return s.DefaultStoreAdapter.RevertTransaction(ctx, id, at)
+	}
 	return s.updateTx(ctx, "RevertTransaction", id, func(sess *Session, t *ledger.Transaction) bool {
 		if t.RevertedAt != nil {
 			return false
@@ -493,6 +503,9 @@ func (s *SimStore) RevertTransaction(ctx context.Context, id uint64, at time.Tim
 }
 
 func (s *SimStore) UpdateTransactionMetadata(ctx context.Context, id uint64, m metadata.Metadata, at time.Time) (*ledger.Transaction, bool, error) {
+	if s.w.realSQL {
+		return s.DefaultStoreAdapter.UpdateTransactionMetadata(ctx, id, m, at)
+	}
 	return s.updateTx(ctx, "UpdateTransactionMetadata", id, func(sess *Session, t *ledger.Transaction) bool {
 		contains := true
 		for k, v := range m {
@@ -516,6 +529,9 @@ func (s *SimStore) UpdateTransactionMetadata(ctx context.Context, id uint64, m m
 }
 
 func (s *SimStore) DeleteTransactionMetadata(ctx context.Context, id uint64, key string, at time.Time) (*ledger.Transaction, bool, error) {
+	if s.w.realSQL {
+		return s.DefaultStoreAdapter.DeleteTransactionMetadata(ctx, id, key, at)
+	}
 	return s.updateTx(ctx, "DeleteTransactionMetadata", id, func(sess *Session, t *ledger.Transaction) bool {
 		if _, ok := t.Metadata[key]; !ok {
 			return false
@@ -535,6 +551,9 @@ func (s *SimStore) DeleteTransactionMetadata(ctx context.Context, id uint64, key
 func acctKey(l, address string) rowKey { return rowKey{"acct", l, address} }
 
 func (s *SimStore) UpsertAccounts(ctx context.Context, accounts ...ledger.AccountWithDefaultMetadata) error {
+	if s.w.realSQL {
+		return s.DefaultStoreAdapter.UpsertAccounts(ctx, accounts...)
+	}
 	note := make([]string, len(accounts))
 	for i, a := range accounts {
 		note[i] = a.Address
@@ -607,6 +626,9 @@ func (s *SimStore) UpsertAccounts(ctx context.Context, accounts ...ledger.Accoun
 }
 
 func (s *SimStore) UpdateAccountsMetadata(ctx context.Context, m map[string]metadata.Metadata, at time.Time) error {
+	if s.w.realSQL {
+		return s.DefaultStoreAdapter.UpdateAccountsMetadata(ctx, m, at)
+	}
 	addrs := make([]string, 0, len(m))
 	for a := range m {
 		addrs = append(addrs, a)
@@ -652,6 +674,9 @@ func (s *SimStore) UpdateAccountsMetadata(ctx context.Context, m map[string]meta
 }
 
 func (s *SimStore) DeleteAccountMetadata(ctx context.Context, address, key string) error {
+	if s.w.realSQL {
+		return s.DefaultStoreAdapter.DeleteAccountMetadata(ctx, address, key)
+	}
 	return s.call(ctx, "DeleteAccountMetadata", address+"#"+key, lockStmtKinds, func(sess *Session) error {
 		k := acctKey(s.l.Name, address)
 		if sess.get(k) == nil {
@@ -674,6 +699,9 @@ func (s *SimStore) DeleteAccountMetadata(ctx context.Context, address, key strin
 // ---- schemas ----
 
 func (s *SimStore) InsertSchema(ctx context.Context, schema *ledger.Schema) error {
+	if s.w.realSQL {
+		return s.DefaultStoreAdapter.InsertSchema(ctx, schema)
+	}
 	return s.call(ctx, "InsertSchema", schema.Version, lockStmtKinds, func(sess *Session) error {
 		k := rowKey{"schema", s.l.Name, schema.Version}
 		if err := sess.lockRow(k); err != nil {
@@ -704,6 +732,9 @@ func decodeSchema(raw []byte) (*ledger.Schema, error) {
 }
 
 func (s *SimStore) FindSchema(ctx context.Context, version string) (*ledger.Schema, error) {
+	if s.w.realSQL {
+		return s.DefaultStoreAdapter.FindSchema(ctx, version)
+	}
 	var out *ledger.Schema
 	err := s.call(ctx, "FindSchema", version, stmtKinds, func(sess *Session) error {
 		raw, _ := sess.get(rowKey{"schema", s.l.Name, version}).([]byte)
@@ -734,6 +765,9 @@ func (s *SimStore) allSchemas(sess *Session) ([]*ledger.Schema, error) {
 }
 
 func (s *SimStore) FindLatestSchemaVersion(ctx context.Context) (*string, error) {
+	if s.w.realSQL {
+		return s.DefaultStoreAdapter.FindLatestSchemaVersion(ctx)
+	}
 	var out *string
 	err := s.call(ctx, "FindLatestSchemaVersion", "", stmtKinds, func(sess *Session) error {
 		out = nil
@@ -793,6 +827,9 @@ func (s *SimStore) lastLog(sess *Session) *LogRow {
 }
 
 func (s *SimStore) InsertLog(ctx context.Context, log *ledger.Log) error {
+	if s.w.realSQL {
+		return s.DefaultStoreAdapter.InsertLog(ctx, log)
+	}
 	hashed := s.l.HasFeature(features.FeatureHashLogs, "SYNC")
 	if hashed {
 		// real code: select pg_advisory_xact_lock(ledger id) as its own statement
@@ -896,6 +933,9 @@ func (s *SimStore) InsertLog(ctx context.Context, log *ledger.Log) error {
 }
 
 func (s *SimStore) ReadLogWithIdempotencyKey(ctx context.Context, ik string) (*ledger.Log, error) {
+	if s.w.realSQL {
+		return s.DefaultStoreAdapter.ReadLogWithIdempotencyKey(ctx, ik)
+	}
 	var out *ledger.Log
 	err := s.call(ctx, "ReadLogWithIdempotencyKey", ik, stmtKinds, func(sess *Session) error {
 		out = nil
